@@ -77,6 +77,34 @@ def run_harness(ctx, cases, tier, profile="mixed", tag="q"):
     return (summ, allf), fails
 
 
+CORPUS = os.path.join(vlib.VERIF, "corpus", "tower")
+
+
+def run_corpus(ctx):
+    """The committed corpus of minimised histories (corpus/tower/*.txt, TW case lines) runs first, on the real tower."""
+    cases = os.path.join(ctx.work, "corpus-cases.txt")
+    with open(cases, "w") as w:
+        for fn in sorted(os.listdir(CORPUS)):
+            if fn.endswith(".txt"):
+                for l in open(os.path.join(CORPUS, fn)):
+                    if l.startswith("TW "):
+                        w.write(l if l.endswith("\n") else l + "\n")
+    out_f = os.path.join(ctx.work, "tw-c.txt")
+    rc, out, _ = vlib.sh([ctx.bin("tower"), "replay", cases, out_f], env={"VERIF_LISTENER_ORDER": listener_order_env()}, timeout=900)
+    if rc != 0 or not os.path.exists(out_f):
+        ctx.broken.append({"kind": "correspondence", "what": f"tower harness failed on the corpus (rc={rc})", "detail": out[-500:]})
+        return None, []
+    rc, out, dt = vlib.sh([vlib.DRIVER, out_f], timeout=900)
+    open(out_f + ".out", "w").write(out)
+    summ = vlib.parse_summary(out).get("TW")
+    fails = [l for l in out.splitlines() if l.startswith("FAIL")]
+    if rc != 0 or summ is None:
+        ctx.broken.append({"kind": "correspondence", "what": "driver failed on the tower corpus", "detail": out[-800:]})
+        return None, fails
+    ctx.log(f"tower[corpus] {summ['cases']} histories: corr_fail={summ['corr_fail']} mon_fail={summ['mon_fail']} mon={summ.get('mon', '')}")
+    return (summ, out_f), fails
+
+
 def parse_fail(l):
     d = {"raw": l}
     m = re.match(r"FAIL (\w+) (.*?) case=(.*)$", l)
@@ -110,6 +138,8 @@ def check(ctx, pid, targets, mon_codes, known_codes=None, allow_axioms=(), extra
     cov["trusted_base"] = TRUSTED_TOWER + list(extra_trusted)
     if ok_h and ok_o:
         plan = [("quick", quick_cases, "mixed", "q")]
+        if os.path.isdir(CORPUS) and any(f.endswith(".txt") for f in os.listdir(CORPUS)):
+            plan.insert(0, ("corpus", 0, "corpus", "c"))
         if thorough:
             plan.append(("thorough", thorough_cases, "mixed", "t"))
         i = 0
@@ -117,7 +147,7 @@ def check(ctx, pid, targets, mon_codes, known_codes=None, allow_axioms=(), extra
         while i < len(plan):
             tier, cases, profile, tag = plan[i]
             i += 1
-            r, fails = run_harness(ctx, cases, tier, profile, tag)
+            r, fails = run_corpus(ctx) if tier == "corpus" else run_harness(ctx, cases, tier, profile, tag)
             if r is None:
                 break
             summ, allf = r
